@@ -66,38 +66,50 @@ def add_markers(prog):
 
 
 def form_table(prog):
-    """The top-level forms in file order: {k: "f"|"t", i: 1-based index into funs/top, defs, uses, asg}.
-    `uses` are the global variables *read* and the functions called anywhere in the form, `asg` the global variables
-    assigned in it (an assignment to an unknown name declares it: Repl.tla offers a form as `entered too early' only
-    if it reads an undefined name that it does not assign itself)."""
+    """The top-level forms in file order: {k: "f"|"t", i: 1-based index into funs/top, defs, uses, must}.
+    `uses`: the global variables read and the functions called anywhere in the form (all must have a meaning for the
+    form to be accepted).  `must`: the subset whose absence surely makes the form ill-typed: reads that are not inside a
+    macro argument (a macro may drop an argument) of names the form does not assign itself (an assignment to an unknown
+    name declares it).  Repl.tla offers a form as `entered too early' only if a name in `must` is undefined."""
     gnames = set(t["x"] for t in prog["top"] if t["d"] == "var")
     order = prog.get("order") or ([["f", i] for i in range(len(prog["funs"]))] + [["t", i] for i in range(len(prog["top"]))])
     out = []
     for kind, i in order:
-        uses = set()
+        uses, must, assigned = set(), set(), set()
 
-        assigned = set()
-
-        def f(x):
-            if x.get("e") == "var" and x["x"] in gnames:
-                uses.add(x["x"])
-            if x.get("e") == "asg":
-                assigned.add(x["x"])
-            if x.get("e") == "call":
-                uses.add(prog["funs"][x["fi"] - 1]["name"])
+        def walk(x, inmac):
+            if isinstance(x, dict):
+                e = x.get("e")
+                if e == "var" and x["x"] in gnames:
+                    uses.add(x["x"])
+                    if not inmac:
+                        must.add(x["x"])
+                if e == "asg":
+                    assigned.add(x["x"])
+                if e == "call":
+                    n = prog["funs"][x["fi"] - 1]["name"]
+                    uses.add(n)
+                    if not inmac:
+                        must.add(n)
+                for v in x.values():
+                    walk(v, inmac or e == "mac")
+            elif isinstance(x, list):
+                for v in x:
+                    walk(v, inmac)
         if kind == "f":
             fn = prog["funs"][i]
-            _walk(fn["body"], f)
+            walk(fn["body"], False)
             uses.discard(fn["name"])
-            out.append({"k": "f", "i": i + 1, "defs": [fn["name"]], "uses": sorted(uses), "asg": sorted(assigned & gnames)})
+            must.discard(fn["name"])
+            defs = [fn["name"]]
+            rec = {"k": "f", "i": i + 1}
         else:
             t = prog["top"][i]
-            if t["d"] == "var":
-                _walk(t["init"], f)
-                out.append({"k": "t", "i": i + 1, "defs": [t["x"]], "uses": sorted(uses), "asg": sorted(assigned & gnames)})
-            else:
-                _walk(t["x"], f)
-                out.append({"k": "t", "i": i + 1, "defs": [], "uses": sorted(uses), "asg": sorted(assigned & gnames)})
+            walk(t["init"] if t["d"] == "var" else t["x"], False)
+            defs = [t["x"]] if t["d"] == "var" else []
+            rec = {"k": "t", "i": i + 1}
+        rec.update({"defs": defs, "uses": sorted(uses), "must": sorted(must - assigned)})
+        out.append(rec)
     return out
 
 
